@@ -80,6 +80,29 @@ func ruleC13(r *Report) {
 		}
 		return false
 	})
+	// the Sign* steps sign the tree Element() renders while Signature is unset; what is emitted is the tree it renders
+	// once Signature is set. Apart from the Signature child the two must be the same tree: no attribute or child of a
+	// signed message type is emitted under a condition on anything but its own field (the guard obligations of
+	// C07.verbatim, run for these types on behalf of this property)
+	r.Rule("C13.same-tree", "the Element() builders of AuthnRequest, LogoutRequest, LogoutResponse and ArtifactResolve emit each attribute and child under no condition but the emptiness of its own field, so the tree rendered for signing and the tree rendered for emission differ by the Signature child only (C07.verbatim guard obligations restricted to these types)", 20)
+	signedTypes := []string{"AuthnRequest", "LogoutRequest", "LogoutResponse", "ArtifactResolve"}
+	oldRemap := r.remap
+	r.remap = func(o *Obligation) (string, bool) {
+		if !strings.HasPrefix(o.Rule, "C07.") {
+			return o.Rule, true
+		}
+		if o.Rule != "C07.verbatim" || !strings.HasSuffix(o.Construct, ": guard") {
+			return "", false
+		}
+		for _, t := range signedTypes {
+			if strings.HasPrefix(o.Construct, t+":") {
+				return "C13.same-tree", true
+			}
+		}
+		return "", false
+	}
+	safely(r, func() { checkBuilders(r, p) })
+	r.remap = oldRemap
 }
 
 func checkMethodKey(r *Report, p *Prog) {
